@@ -291,6 +291,12 @@ Definition sched_eqb (a b : sched) : bool :=
   && list_eqb (fun x y => Qeqb (fst x) (fst y) && Qeqb (snd x) (snd y)) (s_tariffs a) (s_tariffs b)
   && Qeqb (s_demand a) (s_demand b).
 
+(* same schedules up to order (the order of TimeOfUseTariff._schedule is not observable through the API) *)
+Definition count_eqb (x : sched) (l : list sched) : nat := List.length (filter (sched_eqb x) l).
+Definition sched_set_eqb (a b : list sched) : bool :=
+  Nat.eqb (List.length a) (List.length b) &&
+  forallb (fun x => Nat.eqb (count_eqb x a) (count_eqb x b)) a.
+
 Inductive c17case :=
 | CFields (t : Z) (y m d wd h mi s : Z)                      (* datetime fields of an instant *)
 | CCtor (src : tsrc) (expect : res (list sched))             (* TimeOfUseTariff(...)._schedule *)
@@ -320,7 +326,7 @@ Definition check_c17 (c : c17case) : bool :=
       let n := ord_of (secs t) in
       Z.eqb (year_of n) y && Z.eqb (t_month t) m && Z.eqb (t_day t) d && Z.eqb (t_weekday t) wd
       && Z.eqb (t_hour t) h && Z.eqb (t_minute t) mi && Z.eqb (t_second t) s
-  | CCtor src e => res_eqb (list_eqb sched_eqb) (load src) e
+  | CCtor src e => res_eqb sched_set_eqb (load src) e
   | CTariff src t e => res_eqb Qeqb (with_tariff src (fun TS => get_tariff TS t)) e
   | CTariffs src st n p e => res_eqb Qeq_list (with_tariff src (fun TS => get_tariffs TS st n p)) e
   | CTariffsT src st n p table idx =>
